@@ -227,6 +227,21 @@ pub fn run(rep: &mut Report) {
                 // links inside a directory input: to a file (followed), dangling, loops
                 let _ = std::os::unix::fs::symlink(".", d.join("loop"));
                 let _ = std::os::unix::fs::symlink("nowhere.gcda", d.join("dangling.gcda"));
+                // not files, named like artifacts that WOULD be extracted (mutant R15): FIFOs, dangling links,
+                // and a dangling / FIFO gcda beside every live gcno that has no gcda here
+                super::plant_fifo(&d.join("zz_pipe.profraw"));
+                let _ = std::os::unix::fs::symlink("nowhere.profraw", d.join("zz_dangling.profraw"));
+                let _ = std::os::unix::fs::symlink("nowhere.profdata", d.join("zz_dangling.profdata"));
+                for (k, e) in a.ents.iter().filter(|e| e.rel.ends_with(".gcno")).enumerate() {
+                    let g = d.join(format!("{}.gcda", &e.rel[..e.rel.len() - 5]));
+                    if std::fs::symlink_metadata(&g).is_err() {
+                        if k % 2 == 0 {
+                            let _ = std::os::unix::fs::symlink("nowhere.gcda", &g);
+                        } else {
+                            super::plant_fifo(&g);
+                        }
+                    }
+                }
                 paths.push(d.to_str().unwrap().to_string());
                 toks.push(format!("d{}:{}", i, a.ents.iter().map(|e| format!("{}/{}/{}", hex(e.rel.as_bytes()), hex(&e.content[..e.content.len().min(256)]), fnv64(&e.content))).collect::<Vec<_>>().join(",")));
             }
@@ -236,11 +251,20 @@ pub fn run(rep: &mut Report) {
         let xdir = tmp.join("inputs");
         let (sender, receiver) = unbounded();
         let paths2 = paths.clone();
-        let res = guarded(move || {
-            let m = grcov::producer(&xdir, &paths2, &sender, io, llvm);
-            drop(sender);
-            m
+        // on its own thread: a producer blocked on a FIFO must not block the check
+        let (dtx, drx) = std::sync::mpsc::channel();
+        std::thread::spawn(move || {
+            let r = guarded(move || {
+                let m = grcov::producer(&xdir, &paths2, &sender, io, llvm);
+                drop(sender);
+                m
+            });
+            let _ = dtx.send(r);
         });
+        let res = match drx.recv_timeout(std::time::Duration::from_secs(20)) {
+            Ok(r) => r,
+            Err(_) => Err("producer() did not return within 20 s".to_string()),
+        };
         let mut items = 0u64;
         while let Ok(x) = receiver.try_recv() {
             if x.is_some() {
